@@ -247,6 +247,13 @@ class Session(Thread):
                     else:
                         # End of session, unexpected
                         raise SessionCloseError(self._buffer.getvalue())
+                elif self._closing.is_set():
+                    # Closed locally: a socket closed by close() is no longer
+                    # reported by the selector, EOF would never be seen
+                    break
+            # The session was closed locally; requests still outstanding can
+            # not be answered any more
+            self._dispatch_error(SessionCloseError(self._buffer.getvalue()))
         except Exception as e:
             self.logger.debug("Broke out of main loop, error=%r", e)
             self._dispatch_error(e)
